@@ -24,6 +24,17 @@ type Fact struct {
 	Pre    []int    `json:"pre"`
 	Post   []int    `json:"post"`
 	HB     []string `json:"hb"`
+	Use    bool     `json:"use"`   // the value read is used (not just compared with nil)
+	Live   bool     `json:"live"`  // pointer found in the registry under the registry lock, lock still held
+	Valid  bool     `json:"valid"` // re-checked non-nil under a lock the teardown holds, lock still held
+}
+
+// StaleRead is a use of a field the teardown clears, through a pointer that is neither live nor
+// re-validated nor held (C01) nor fresh
+type StaleRead struct {
+	Cls  string `json:"cls"`
+	Func string `json:"func"`
+	Site string `json:"site"`
 }
 
 // UnitInfo locates a function unit (declaration or closure) in the source, for mapping race
@@ -72,6 +83,8 @@ type Result struct {
 	Spawns     []string       `json:"spawns"`
 	Units      []UnitInfo     `json:"units"`
 	Exempt     []ExemptPair   `json:"exempt_pairs"`
+	Cleared    []string       `json:"cleared_classes"`
+	Stale      []StaleRead    `json:"stale_reads"`
 	SitesAll   []SiteInfo     `json:"sites_all"`
 	Notes      []string       `json:"notes"`
 }
@@ -330,10 +343,18 @@ func (a *analyzer) solve() *Result {
 		res.Spawns = append(res.Spawns, fmt.Sprintf("%d: %s in %s (line %d) -> thread class %q once=%v single=%v", sp.id, sp.kind, sp.parent.name, pos.Line, sp.class, once[sp.id], single[sp.class]))
 	}
 
+	liveValid := func(ac *access, L map[lockKey]bool, locks []string) (live, valid bool) {
+		hasReg, hasObj := contains(locks, "g:"+registryLock), contains(locks, "s:"+objectLock)
+		live = L[lockKey("live:@"+ac.base)] && hasReg
+		valid = L[lockKey("valid:@"+ac.base)] && hasObj
+		_ = hasReg
+		return
+	}
 	lockRefs := func(ac *access, L map[lockKey]bool) (locks []string, pre, post []int) {
 		for k := range L {
 			cls, base := keyBase(k)
 			switch {
+			case cls == "live:" || cls == "valid:":
 			case strings.HasPrefix(cls, "pre:"), strings.HasPrefix(cls, "post:"):
 				id, _ := strconv.Atoi(cls[strings.Index(cls, ":")+1:])
 				sp := spawnByID[id]
@@ -377,6 +398,7 @@ func (a *analyzer) solve() *Result {
 		for _, ac := range u.accesses {
 			L := eff(entry[u], ac.st)
 			locks, pre, post := lockRefs(ac, L)
+			live, valid := liveValid(ac, L, locks)
 			racy := false
 			if ac.origin >= 0 {
 				o := u.accesses[ac.origin]
@@ -387,8 +409,8 @@ func (a *analyzer) solve() *Result {
 			sort.Strings(hb)
 			for _, t := range ths {
 				f := Fact{Func: u.name, Line: ac.line, Cls: ac.cls, Kind: ac.kind, Locks: locks, Thread: t, Single: single[t] || (forkOwners[ac.owner] && objSingle[t]),
-					Init: ac.init, Racy: racy, Atomic: ac.atomic, Pre: pre, Post: post, HB: hb}
-				key := fmt.Sprintf("%s|%s|%s|%v|%s|%v|%v|%v|%v|%v|%v", f.Func, f.Cls, f.Kind, f.Locks, f.Thread, f.Init, f.Racy, f.Atomic, f.Pre, f.Post, f.HB)
+					Init: ac.init, Racy: racy, Atomic: ac.atomic, Pre: pre, Post: post, HB: hb, Use: ac.use, Live: live, Valid: valid}
+				key := fmt.Sprintf("%s|%s|%s|%v|%s|%v|%v|%v|%v|%v|%v|%v|%v|%v", f.Func, f.Cls, f.Kind, f.Locks, f.Thread, f.Init, f.Racy, f.Atomic, f.Pre, f.Post, f.HB, f.Use, f.Live, f.Valid)
 				if seen[key] {
 					continue
 				}
@@ -413,6 +435,7 @@ func (a *analyzer) solve() *Result {
 		}
 		return false
 	})
+	res.Cleared = keys(a.cleared)
 	res.index()
 	res.check()
 	return res
@@ -559,12 +582,38 @@ func (r *Result) check() {
 		}
 	}
 	r.BadClasses = keys(bad)
+	for i := range r.Facts {
+		f := &r.Facts[i]
+		if r.stale(f) {
+			r.Stale = append(r.Stale, StaleRead{f.Cls, f.Func, f.Site})
+		}
+	}
+}
+
+// the same rule as OllamaVerif.Lockset.staleRead
+func (r *Result) stale(f *Fact) bool {
+	return f.Kind == "read" && contains(r.Cleared, f.Cls) && f.Use &&
+		!((f.Live && r.writesHold(f.Cls, "g:"+registryLock)) || (f.Valid && r.writesHold(f.Cls, "s:"+objectLock)) ||
+			f.Init || contains(f.HB, "holder"))
+}
+
+func (r *Result) writesHold(cls, lock string) bool {
+	for i := range r.Facts {
+		a := &r.Facts[i]
+		if a.Cls != cls || a.Init || !(a.Kind == "write" || a.Kind == "mapInsert" || a.Kind == "mapDelete") {
+			continue
+		}
+		if !contains(a.Locks, lock) {
+			return false
+		}
+	}
+	return true
 }
 
 func (r *Result) summary(w io.Writer) {
 	for i, f := range r.Facts {
-		fmt.Fprintf(w, "%3d %-32s %-9s %-40s locks=%v thread=%s single=%v init=%v racy=%v atomic=%v pre=%v post=%v hb=%v\n",
-			i, f.Cls, f.Kind, f.Site, f.Locks, f.Thread, f.Single, f.Init, f.Racy, f.Atomic, f.Pre, f.Post, f.HB)
+		fmt.Fprintf(w, "%3d %-32s %-9s %-40s locks=%v thread=%s single=%v init=%v racy=%v atomic=%v pre=%v post=%v hb=%v use=%v live=%v valid=%v\n",
+			i, f.Cls, f.Kind, f.Site, f.Locks, f.Thread, f.Single, f.Init, f.Racy, f.Atomic, f.Pre, f.Post, f.HB, f.Use, f.Live, f.Valid)
 	}
 	fmt.Fprintln(w, "--- spawns")
 	for _, s := range r.Spawns {
@@ -574,6 +623,11 @@ func (r *Result) summary(w io.Writer) {
 	for _, v := range r.Violations {
 		a, b := r.Facts[v.A], r.Facts[v.B]
 		fmt.Fprintf(w, "%s: %s[%s %v @%s] vs %s[%s %v @%s]\n", v.Cls, a.Site, a.Kind, a.Locks, a.Thread, b.Site, b.Kind, b.Locks, b.Thread)
+	}
+	fmt.Fprintln(w, "--- cleared classes:", r.Cleared)
+	fmt.Fprintln(w, "--- stale reads")
+	for _, s := range r.Stale {
+		fmt.Fprintf(w, "%s at %s\n", s.Cls, s.Site)
 	}
 	fmt.Fprintln(w, "--- notes")
 	for _, n := range r.Notes {
@@ -617,7 +671,7 @@ func (r *Result) lean() string {
 	fmt.Fprintf(&b, "def threadNames : List String := %s\n", strList(r.Threads))
 	fmt.Fprintf(&b, "def siteNames : List String := %s\n", strList(r.Sites))
 	b.WriteString("def hbNames : List String := [\"-\", \"holder (C01: no unload while a request holds the runner)\", \"doneclose (write before close(done), read after <-done)\"]\n\n")
-	b.WriteString("private def mk (site cls : Nat) (kind : Kind) (locks : List LockRef) (thread : Nat) (single init racy atomic : Bool)\n    (pre post hb : List Nat) : Access :=\n  { site, cls, kind, locks, thread, single, init, racy, atomic, pre, post, hb }\n\n")
+	b.WriteString("private def mk (site cls : Nat) (kind : Kind) (locks : List LockRef) (thread : Nat) (single init racy atomic : Bool)\n    (pre post hb : List Nat) (use live valid : Bool) : Access :=\n  { site, cls, kind, locks, thread, single, init, racy, atomic, pre, post, hb, use, live, valid }\n\n")
 	b.WriteString("def accesses : List Access := [\n")
 	for i, f := range r.Facts {
 		var ls []string
@@ -632,9 +686,9 @@ func (r *Result) lean() string {
 		if i == len(r.Facts)-1 {
 			sep = ""
 		}
-		fmt.Fprintf(&b, "  mk %d %d .%s [%s] %d %v %v %v %v %s %s %s%s  -- %d %s %s @%s\n",
+		fmt.Fprintf(&b, "  mk %d %d .%s [%s] %d %v %v %v %v %s %s %s %v %v %v%s  -- %d %s %s @%s\n",
 			idx(r.Sites, f.Site), idx(r.Classes, f.Cls), f.Kind, strings.Join(ls, ", "), idx(r.Threads, f.Thread),
-			f.Single, f.Init, f.Racy, f.Atomic, natList(f.Pre), natList(f.Post), natList(hb), sep, i, f.Cls, f.Site, f.Thread)
+			f.Single, f.Init, f.Racy, f.Atomic, natList(f.Pre), natList(f.Post), natList(hb), f.Use, f.Live, f.Valid, sep, i, f.Cls, f.Site, f.Thread)
 	}
 	b.WriteString("]\n\n")
 	b.WriteString("/-- (class, site, site) of the pairs the translator's own implementation of the rule rejects -/\n")
@@ -656,6 +710,26 @@ func (r *Result) lean() string {
 			good = append(good, i)
 		}
 	}
+	var clr []int
+	for _, c := range r.Cleared {
+		if i := idx(r.Classes, c); i >= 0 {
+			clr = append(clr, i)
+		}
+	}
+	b.WriteString("/-- classes a teardown function (runnerRef.unload) sets to nil -/\n")
+	fmt.Fprintf(&b, "def clearedClassIds : List Nat := %s\n", natList(clr))
+	fmt.Fprintf(&b, "def registryClassId : Nat := %d\n", idx(r.Classes, registryClass))
+	fmt.Fprintf(&b, "def registryLockRef : LockRef := ⟨%d, false⟩\n", idx(r.LockNames, registryLock))
+	fmt.Fprintf(&b, "def objectLockRef : LockRef := ⟨%d, true⟩\n", idx(r.LockNames, objectLock))
+	b.WriteString("/-- (class, site) of the stale reads the translator's own implementation of the rule found -/\n")
+	b.WriteString("def expectedStale : List (Nat × Nat) := [")
+	for i, st := range r.Stale {
+		if i > 0 {
+			b.WriteString(", ")
+		}
+		fmt.Fprintf(&b, "(%d, %d)", idx(r.Classes, st.Cls), idx(r.Sites, st.Site))
+	}
+	b.WriteString("]\n")
 	fmt.Fprintf(&b, "def badClassIds : List Nat := %s\n", natList(bad))
 	fmt.Fprintf(&b, "def goodClassIds : List Nat := %s\n", natList(good))
 	fmt.Fprintf(&b, "def badClassNames : List String := %s\n", strList(r.BadClasses))
